@@ -32,6 +32,9 @@ KNOWN = {
     "UAIWriter:reorders-model-cpds",
     "XMLBIFWriter:reorders-model-cpds",
     "engine-history:virtual_evidence",
+    # BayesianNetwork.remove_cpds resolves only str/int node names -> remove_node (used by the MinFill... elimination orders) fails for tuple names
+    "VariableElimination.query(MinFill):rename_tuple:raised:ValueError", "VariableElimination.query(MinFill):all:raised:ValueError",
+    "VariableElimination.map_query:rename_tuple:raised:ValueError", "VariableElimination.map_query:all:raised:ValueError",
     "UAIWriter.__str__:not-repeatable",
     "XMLBIFWriter.__str__:not-repeatable",
 }
@@ -251,9 +254,9 @@ FAMILIES = ("ve", "bp", "causal", "sampling", "predict", "scores", "estimators",
 
 def gen_purity(family):
     def gen(tier, seed):
-        cnt = {"quick": 6, "thorough": 40}[tier]
+        cnt = {"quick": 10, "thorough": 40}[tier]
         if family in ("hillclimb", "estimators", "sampling", "predict"):
-            cnt = {"quick": 4, "thorough": 20}[tier]
+            cnt = {"quick": 6, "thorough": 20}[tier]
         for i, js in enumerate(gen_specs(seed, "c16pur" + family, cnt, 3, 5 if family not in ("hillclimb",) else 4)):
             yield {"family": family, "spec": js, "dseed": seed * 1000 + i}
     return gen
@@ -678,13 +681,13 @@ def _same_answer(spec, qq, a, b):
 
 def gen_history(kind):
     def gen(tier, seed):
-        cnt = {"quick": 5, "thorough": 25}[tier]
+        cnt = {"quick": 6, "thorough": 25}[tier]
         if kind in ("bp", "ci"):
-            cnt = {"quick": 3, "thorough": 12}[tier]
+            cnt = {"quick": 4, "thorough": 12}[tier]
         for i, js in enumerate(gen_specs(seed, "c16hist" + kind, cnt, 3, 4)):
             npool = len(_pool(O.spec_from_json(js), kind))
             for first in range(npool):
-                yield {"engine": kind, "spec": js, "first": first, "depth": 2 if tier == "quick" else 3, "oseed": seed + i}
+                yield {"engine": kind, "spec": js, "first": first, "depth": 3 if (tier != "quick" or kind == "ve") else 2, "oseed": seed + i}
     return gen
 
 
@@ -787,7 +790,7 @@ def transform_spec(spec, kind, rng):
 
 
 def gen_repr(tier, seed):
-    cnt = {"quick": 3, "thorough": 12}[tier]
+    cnt = {"quick": 5, "thorough": 12}[tier]
     for i, js in enumerate(gen_specs(seed, "c16repr", cnt, 3, 4, zeros=False)):
         for t in TRANSFORMS:
             yield {"spec": js, "transform": t, "tseed": seed * 100 + i}
@@ -882,7 +885,7 @@ def check_repr(case):
                     fails.append({"key": f"DiscreteFactor.reduce:{t}:raised:{type(rd).__name__}", "what": f"{rd!r}"})
                 elif not same_fdict(fdict(rd), want, 1e-8):
                     fails.append({"key": f"DiscreteFactor.reduce:{t}:answer", "what": f"P({vm[v]}|{ev}) {fdict(rd)} oracle {want}"})
-    return _pick(fails)
+    return _pick(fails, case["tseed"])
 
 
 # ----------------------------------------------------------------------------- backend numpy vs torch
@@ -968,14 +971,14 @@ def groups(tier):
     gs = []
     for fam in FAMILIES:
         gs.append(Group(f"purity_{fam}", gen_purity(fam), check_purity, lambda c: True, engine="E3",
-                        bound=f"family {fam}: 6/4 (40/20) seeded models on 3-5 nodes (multi-character names, cards 2-3, unsorted CPD list, unsorted parent "
+                        bound=f"family {fam}: 10/6 (40/20) seeded models on 3-5 nodes (multi-character names, cards 2-3, unsorted CPD list, unsorted parent "
                               "orders) + a sampled data frame; deep order-sensitive snapshot of every object passed in before/after each public call"))
     for kind in ("ve", "bp", "ci", "sampling"):
         gs.append(Group(f"history_{kind}", gen_history(kind), check_history, lambda c: True, engine="E3",
-                        bound=f"engine {kind}: 5/3 (25/12) seeded models; every sequence of <= 2 (thorough 3) questions over the pool (6-9 questions incl. "
+                        bound=f"engine {kind}: 6/4 (25/12) seeded models; every sequence of <= 2 (VE and thorough: 3) questions over the pool (6-9 questions incl. "
                               "virtual evidence, different evidence, MAP over all variables, max_marginal / calibrate), then every pool question, vs a fresh engine"))
     gs.append(Group("repr", gen_repr, check_repr, lambda c: True, seed_fanout=8 if tier == "quick" else 16, engine="E3",
-                    bound="3 (12) seeded models x 7 relabellings (tuple / int variable names, int/str/mixed state names, permuted state lists, shuffled "
+                    bound="5 (12) seeded models x 7 relabellings (tuple / int variable names, int/str/mixed state names, permuted state lists, shuffled "
                           "node/edge/CPD/parent insertion orders, all together), 5 (query, evidence) plans each: VE/BP query, VE(MinFill), MAP value, "
                           "get_state_probability, factor product/marginalize/reduce vs exact Fraction oracle; each case under 8 (16) PYTHONHASHSEEDs"))
     gs.append(Group("backend", gen_backend, check_backend, lambda c: True, engine="E3",
